@@ -1266,9 +1266,16 @@ func newRetributionInfo(chanPoint *wire.OutPoint,
 			)
 		}
 
-		return txscript.IsPayToTaproot(
-			breachInfo.RemoteOutputSignDesc.Output.PkScript,
-		)
+		if breachInfo.RemoteOutputSignDesc != nil {
+			return txscript.IsPayToTaproot(
+				breachInfo.RemoteOutputSignDesc.Output.PkScript,
+			)
+		}
+
+		// Both commitment outputs are dust, so only HTLC outputs are
+		// left to sweep. There's no commitment script to look at, the
+		// channel type tells the commitment format.
+		return breachInfo.ChanType.IsTaproot()
 	}()
 
 	// First, record the breach information for the local channel point if
